@@ -673,6 +673,7 @@ fn spawn_async_ao_list_in_task'''),
         ('first-character-replaced-through-one-byte', 'brush-core/src/variables.rs', "s.replace_range(0..c.len_utf8(), &c.to_uppercase().to_string());", "s.replace_range(0..1, &c.to_uppercase().to_string());"),
     ],
     'U78': [
+        ('root-looked-for-in-the-first-piece-only', 'brush-core/src/patterns.rs', "        let absolute_root = components.first().and_then(|first_component| {\n            let flattened: String = first_component.iter().map(|p| p.as_str()).collect();\n            sys::fs::pattern_path_root(&flattened)\n        });", "        let absolute_root = components\n            .first()\n            .and_then(|first_component| first_component.first())\n            .and_then(|first_piece| sys::fs::pattern_path_root(first_piece.as_str()));"),
         ('slash-always-added-to-the-prefix', 'brush-core/src/patterns.rs', "            if !working_dir_str.ends_with('/') {\n                working_dir_str.push('/');\n            }", "            working_dir_str.push('/');"),
     ],
     'U77': [
